@@ -347,10 +347,20 @@ type checkRun struct {
 }
 
 func runCheck(prop, tier string) (*checkRun, error) {
+	// the bounded stand-ins (real code on real SQLite) run beside the deductive part
+	boundedCh := make(chan []*BoundedResult, 1)
+	go func() { boundedCh <- runBounded(prop, tier) }()
+	t0 := time.Now()
+	phase := func(what string) {
+		if os.Getenv("VERIF_TIMING") != "" {
+			fmt.Fprintf(os.Stderr, "timing: %s at %.1fs\n", what, time.Since(t0).Seconds())
+		}
+	}
 	e, err := LoadEngine(repoDir(), filepath.Join(verifDir, "specs"))
 	if err != nil {
 		return nil, err
 	}
+	phase("loaded")
 	fns, cs, missing := e.functionsFor(prop)
 	var trs []*Tr
 	for i, fn := range fns {
@@ -367,18 +377,38 @@ func runCheck(prop, tier string) (*checkRun, error) {
 	if tier == "thorough" {
 		timeout = 60
 	}
+	phase("vcs generated")
 	results, problems := solveAll(trs, prop, timeout, tier == "thorough")
+	phase("solved")
 	problems = append(problems, immProblems...)
 	// vacuity covers
-	for _, tr := range trs {
-		if tr.top == nil {
-			continue
+	{
+		var wg sync.WaitGroup
+		var mu sync.Mutex
+		sem := make(chan struct{}, 8)
+		for _, tr := range trs {
+			if tr.top == nil {
+				continue
+			}
+			wg.Add(1)
+			go func(tr *Tr) {
+				defer wg.Done()
+				sem <- struct{}{}
+				defer func() { <-sem }()
+				if st := coverStatus(tr, timeout); st == "unsat" {
+					mu.Lock()
+					problems = append(problems, fmt.Sprintf("vacuous contract: no return of %s is reachable under its preconditions", tr.topShort))
+					mu.Unlock()
+				}
+			}(tr)
 		}
-		if st := coverStatus(tr, timeout); st == "unsat" {
-			problems = append(problems, fmt.Sprintf("vacuous contract: no return of %s is reachable under its preconditions", tr.topShort))
-		}
+		wg.Wait()
+		sort.Strings(problems)
 	}
-	return &checkRun{prop: prop, tier: tier, results: results, problems: problems, trs: trs, missing: missing, engine: e, bounded: runBounded(prop, tier)}, nil
+	phase("covers done")
+	b := <-boundedCh
+	phase("bounded done")
+	return &checkRun{prop: prop, tier: tier, results: results, problems: problems, trs: trs, missing: missing, engine: e, bounded: b}, nil
 }
 
 func cmdLock(args []string) int {
@@ -695,18 +725,33 @@ func truncate(s string, n int) string {
 
 // coverStatus: "sat" if some return is reachable under the preconditions, "unsat" if all tried covers are unsat.
 func coverStatus(tr *Tr, timeout int) string {
-	st := "unsat"
-	for _, c := range tr.covers {
-		r := solve(tr.script(c.Goal, false), timeout, []string{"z3-new", "cvc5"})
-		if r.Status == "sat" {
-			return "sat"
-		}
-		if r.Status != "unsat" {
-			st = r.Status
-		}
-	}
 	if len(tr.covers) == 0 {
 		return "no-returns"
+	}
+	// reachability is only a guard against vacuous contracts: every cover is tried by both solvers at once with a short
+	// limit; the first `sat` settles it, `unknown`/timeouts do not alarm
+	if timeout > 4 {
+		timeout = 4
+	}
+	type res struct{ st string }
+	ch := make(chan res, 2*len(tr.covers))
+	n := 0
+	for _, c := range tr.covers {
+		q := tr.script(c.Goal, false)
+		for _, sv := range []string{"z3-new", "cvc5"} {
+			n++
+			go func(q, sv string) { ch <- res{solve(q, timeout, []string{sv}).Status} }(q, sv)
+		}
+	}
+	st := "unsat"
+	for i := 0; i < n; i++ {
+		r := <-ch
+		if r.st == "sat" {
+			return "sat"
+		}
+		if r.st != "unsat" {
+			st = r.st
+		}
 	}
 	return st
 }
